@@ -114,6 +114,40 @@ def run_one(sid, tier='quick', seed='0', prop=None):
                 'tail': out.splitlines()[-1][:200] if out else ''}
 
 
+def write_results_md():
+    rows = {}
+    for tier in ('quick', 'thorough'):
+        p = os.path.join(SEEDED, f'last_run_{tier}.json')
+        if os.path.exists(p):
+            for r in json.load(open(p)):
+                rows.setdefault(r['id'], {})[tier] = r
+    out = ['# Seeded changes: which check catches which change', '',
+           'Generated by `harness/seeded.py runall <tier>` (scratch worktree of /repo HEAD + patch, `BRIDGE_ENV_REPO`).',
+           '`CAUGHT` = exit 1 with a VIOLATION line and a concrete replay; `CAUGHT(no-input)` = VIOLATION … no-failing-input-found;',
+           '`MISSED` = exit 0.  Every change passes the pinned test-suite (4 366 tests) and was written without access to /verif.', '',
+           '| id | property | what was changed | needs | quick | thorough | failing input reported |', '|---|---|---|---|---|---|---|']
+    for sid in sorted(rows):
+        try:
+            meta = json.load(open(os.path.join(SEEDED, sid, 'meta.json')))
+        except OSError:
+            continue
+
+        def verdict(r):
+            if r is None:
+                return '–'
+            if r['rc'] == 1:
+                return 'CAUGHT(no-input)' if r['no_failing_input'] else 'CAUGHT'
+            return 'MISSED' if r['rc'] == 0 else 'INFRA'
+        q, t = rows[sid].get('quick'), rows[sid].get('thorough')
+        reason = ((q or t or {}).get('reason') or '').replace('|', '/')[:90]
+
+        def cell(x):
+            return str(x or '').replace('|', '/').replace('\n', ' ')[:230]
+        out.append(f'| {sid} | {meta.get("property")} | {cell(meta.get("summary"))} | {cell(meta.get("needs"))} | '
+                   f'{verdict(q)} | {verdict(t)} | {reason} |')
+    open(os.path.join(SEEDED, 'RESULTS.md'), 'w').write('\n'.join(out) + '\n')
+
+
 def main():
     cmd = sys.argv[1]
     if cmd == 'import':
@@ -136,6 +170,7 @@ def main():
                                                                                     ('MISSED' if r['rc'] == 0 else 'INFRA'))
             print(f'{r["id"]:40s} {r["property"]} {tier:8s} {verdict:16s} {r["reason"][:110]}')
         json.dump(res, open(os.path.join(SEEDED, f'last_run_{tier}.json'), 'w'), indent=1)
+        write_results_md()
         return
     print(__doc__)
 
